@@ -516,6 +516,29 @@ class Ceremony:
                 raw = raw2
                 clean = False
                 tr.fault("tamper_" + st["tamper"]["kind"])
+        if st.get("corrupt_sig"):
+            # in-flight corruption biased to where it matters: one bit inside one partial-signature value (or its key)
+            cs = st["corrupt_sig"]
+            try:
+                pmx = psbtmap.parse(raw)
+                slots = [(ii, kk) for ii, m_ in enumerate(pmx["inputs"]) for kk, (k_, v_) in enumerate(m_) if k_[:1] == b"\x02"]
+                if slots:
+                    ii, kk = slots[cs["which"] % len(slots)]
+                    k_, v_ = pmx["inputs"][ii][kk]
+                    if cs.get("in_key"):
+                        kb = bytearray(k_)
+                        kb[1 + cs["bit"] // 8 % (len(kb) - 1)] ^= 1 << (cs["bit"] % 8)
+                        pmx["inputs"][ii][kk] = (bytes(kb), v_)
+                    else:
+                        vb = bytearray(v_)
+                        vb[cs["bit"] // 8 % len(vb)] ^= 1 << (cs["bit"] % 8)
+                        pmx["inputs"][ii][kk] = (k_, bytes(vb))
+                    raw = psbtmap.serialize(pmx)
+                    clean = False
+                    tr.fault("corrupt_partial_sig")
+                    tr.probe(f"corrupt_sig_slot_{'first' if kk == min(k for i2, k in slots if i2 == ii) else 'later'}_of_{sum(1 for i2, k in slots if i2 == ii)}")
+            except Exception:
+                pass
         if st.get("corrupt"):
             bb = bytearray(raw)
             for (pos, bit) in st["corrupt"]:
@@ -681,14 +704,18 @@ class Ceremony:
             d = rs.bip143(pm["tx"], idx, algo_sc, inp["amount"], 1) if segwit else rs.legacy(pm["tx"], idx, algo_sc, 1)
             outsider = 0xDEADBEEF + j
             r_, s_ = secp.ecdsa_sign(outsider, int.from_bytes(d, "big"))
-            pm["inputs"][idx] = [kv for kv in m if not (kv[0][:1] == b"\x02" and kv[0][1:] == own_pk)] + [(b"\x02" + secp.sec(secp.mul(outsider)), der(r_, s_))]
+            rest = [kv for kv in m if not (kv[0][:1] == b"\x02" and kv[0][1:] == own_pk)]
+            bad = (b"\x02" + secp.sec(secp.mul(outsider)), der(r_, s_))
+            pm["inputs"][idx] = ([bad] + rest) if j % 2 == 0 else (rest + [bad])
         elif kind == "wrong_tx":
             # own key, but the signature is over a different transaction (locktime + 1)
             t2 = tm.clone(pm["tx"])
             t2["locktime"] = (t2["locktime"] + 1) % 2**32
             d = rs.bip143(t2, idx, algo_sc, inp["amount"], 1) if segwit else rs.legacy(t2, idx, algo_sc, 1)
             r_, s_ = secp.ecdsa_sign(own_secret, int.from_bytes(d, "big"))
-            pm["inputs"][idx] = [kv for kv in m if not (kv[0][:1] == b"\x02" and kv[0][1:] == own_pk)] + [(b"\x02" + own_pk, der(r_, s_))]
+            rest = [kv for kv in m if not (kv[0][:1] == b"\x02" and kv[0][1:] == own_pk)]
+            bad = (b"\x02" + own_pk, der(r_, s_))
+            pm["inputs"][idx] = ([bad] + rest) if (j + len(rest)) % 2 == 0 else (rest + [bad])
         else:
             return None
         # keep BIP174 ordering irrelevant: the library accepts any order
@@ -958,17 +985,30 @@ class Ceremony:
             if canon_raw != before:
                 fail("C10", "Q3", "combined_psbt_depends_on_history", f"{c.name}'s combined PSBT ({len(before)} bytes) differs from the canonical schedule's (star, index order, each once) for the same signer set {sorted(observed)} ({len(canon_raw)} bytes)")
         # finalise + extract on a re-parsed copy (the combiner's own object stays usable)
+        fin = None
         try:
             fin = PSBT.parse(BytesIO(before), network="mainnet")
             fin.finalize()
             self.check_emitted(fin.serialize(), c.name + "(finalised)")
             ftx = fin.final_tx()
             out = "extracted"
-        except SimDeadlock:
+        except (SimDeadlock, Violation):
             raise
         except Exception as e:
             ftx = None
             out = "raised:" + type(e).__name__
+        if ftx is not None:
+            # the finaliser's PSBT object stays a PSBT after extraction: what it serialises now is still a valid message
+            tr.oracle("Q1_after_extract")
+            try:
+                after = fin.serialize()
+            except SimDeadlock:
+                raise
+            except Exception as e:
+                after = None
+                fail("C10", "Q1", "serialize_after_extract_raised", f"serialize() after final_tx() raised {type(e).__name__}: {e}")
+            if after is not None:
+                self.check_emitted(after, c.name + "(after extraction)")
         tr.ev(c.name, "finalize", f"{out}|sigs={per_input}|m={s.m}")
         tr.state("fin", s.kind, s.m, s.n, tuple(per_input), out.split(":")[0], self.tainted)
         tr.oracle("Q4")
@@ -1037,7 +1077,7 @@ def execute(plan, prop, trace):
         fail("C10", "Q7", "fault_free_ceremony_incomplete", f"fault-free {cer.setup.kind} {cer.setup.m}-of-{cer.setup.n} ceremony over schedule '{plan.get('topology')}' did not produce a final transaction: {outs}")
     s = cer.setup
     return {"wallet": f"{s.kind} {s.m}-of-{s.n}", "inputs": len(s.inputs), "outputs": len(s.outputs), "change": s.change is not None, "topology": plan.get("topology"), "creator": plan.get("creator"),
-            "steps": [(x.get("src", x.get("node", "")) + ">" + x.get("dst", "") if x["op"] == "send" else x["op"]) + "".join("+" + k for k in ("dup", "stale", "corrupt", "crosstalk", "byz", "tamper") if x.get(k)) for x in plan["steps"]], "finalize": outs}
+            "steps": [(x.get("src", x.get("node", "")) + ">" + x.get("dst", "") if x["op"] == "send" else x["op"]) + "".join("+" + k for k in ("dup", "stale", "corrupt", "corrupt_sig", "crosstalk", "byz", "tamper") if x.get(k)) for x in plan["steps"]], "finalize": outs}
 
 
 # ------------------------------------------------------------------------------------------------ generation
@@ -1154,6 +1194,9 @@ def generate(ch, tier, prop):
                 st["stale"] = ch.randrange(1, 3)
             if "corrupt" in kinds_f and ch.chance(p):
                 st["corrupt"] = [(ch.randrange(0, 100000), ch.randrange(8))]
+            if "corrupt" in kinds_f and st["src"] != "C" or ("corrupt" in kinds_f and ch.chance(0.3)):
+                if ch.chance(p * 1.5):
+                    st["corrupt_sig"] = {"which": ch.randrange(0, 8), "bit": ch.randrange(0, 600), "in_key": ch.chance(0.2)}
             if "crosstalk" in kinds_f and ch.chance(p * 0.5):
                 st["crosstalk"] = True
             if "byz" in kinds_f and st["src"].startswith("S") and ch.chance(p):
@@ -1242,6 +1285,22 @@ def enumerate_plans(tier, prop, seed):
             plan["expect_complete"] = True
             plan["enum"] = "types"
             yield plan
+    # a chain ceremony (each signer signs on top of the previous one's PSBT) in which the hop into the last signer / the coordinator
+    # carries a message with k >= 2 partial signatures, one of which is bit-flipped: every slot, value and key
+    for kind in ("p2sh", "p2wsh"):
+        for which in range(3):
+            for in_key in (False, True):
+                for hop in (2, 3):
+                    plan = base(kind, 3, 3)
+                    plan["creator"] = {"segwit_flag": False, "xpubs": False, "unknown": False, "helper": False}
+                    plan["sign_method"] = "keys"
+                    plan["encoding"] = "raw"
+                    plan["topology"] = "chain"
+                    steps = [{"op": "send", "src": "C", "dst": "S0"}, {"op": "send", "src": "S0", "dst": "S1"}, {"op": "send", "src": "S1", "dst": "S2"}, {"op": "send", "src": "S2", "dst": "C"}]
+                    steps[hop]["corrupt_sig"] = {"which": which, "bit": r.randrange(8, 500), "in_key": in_key}
+                    plan["steps"] = steps + [{"op": "finalize"}]
+                    plan["enum"] = "corrupt-sig-slots"
+                    yield plan
     # all signer subsets x all arrival orders for a 2-of-3 (thorough: also 2-of-4), star topology
     from itertools import permutations
 
@@ -1266,7 +1325,7 @@ def enumerate_plans(tier, prop, seed):
 
 def shrink(plan):
     for i, st in enumerate(plan["steps"]):
-        for key in ("dup", "stale", "corrupt", "crosstalk", "byz"):
+        for key in ("dup", "stale", "corrupt", "corrupt_sig", "crosstalk", "byz"):
             if st.get(key):
                 p = dict(plan, steps=[dict(x) for x in plan["steps"]])
                 del p["steps"][i][key]
